@@ -181,7 +181,11 @@ fn format_file(
             #[cfg(stylua_verif)]
             verif_hooks::event(
                 "fs_write",
-                &format!("\"path\":{},\"len\":{}", verif_hooks::quote(&path.display().to_string()), formatted_contents.len()),
+                &format!(
+                    "\"path\":{},\"len\":{}",
+                    verif_hooks::quote(&path.display().to_string()),
+                    formatted_contents.len()
+                ),
             );
             fs::write(path, formatted_contents)
                 .with_context(|| format!("could not write to {}", path.display()))?;
@@ -523,15 +527,27 @@ fn format(opt: opt::Opt) -> Result<i32> {
                         #[cfg(stylua_verif)]
                         verif_hooks::event(
                             "dispatch",
-                            &format!("\"path\":{}", verif_hooks::quote(&path.display().to_string())),
+                            &format!(
+                                "\"path\":{}",
+                                verif_hooks::quote(&path.display().to_string())
+                            ),
                         );
                         let tx = tx.clone();
                         pool.execute(move || {
                             #[cfg(stylua_verif)]
                             {
-                                let name = path.file_name().map(|x| x.to_string_lossy().to_string()).unwrap_or_default();
+                                let name = path
+                                    .file_name()
+                                    .map(|x| x.to_string_lossy().to_string())
+                                    .unwrap_or_default();
                                 verif_hooks::role(&format!("worker[{}]", name));
-                                verif_hooks::yield_point("start", &format!("\"path\":{}", verif_hooks::quote(&path.display().to_string())));
+                                verif_hooks::yield_point(
+                                    "start",
+                                    &format!(
+                                        "\"path\":{}",
+                                        verif_hooks::quote(&path.display().to_string())
+                                    ),
+                                );
                             }
                             tx.send(
                                 format_file(&path, config, range, &opt, verify_output).map_err(
